@@ -56,7 +56,7 @@ func TestC05Random(t *testing.T) {
 	st := StatsFor("C05")
 	rapid.Check(t, func(rt *rapid.T) {
 		d := rapid.IntRange(0, 8).Draw(rt, "depth")
-		c := &FlowCase{Depth: d, Siblings: chance(rt, 1, 2, "siblings"), Below: chance(rt, 1, 2, "below"), Twice: chance(rt, 1, 3, "twice")}
+		c := &FlowCase{Depth: d, Siblings: chance(rt, 1, 2, "siblings"), Below: chance(rt, 1, 2, "below"), Twice: chance(rt, 1, 3, "twice"), Policy: intn(rt, 3, "policy")}
 		for i := 0; i < 2*d+3; i++ {
 			// bias towards "returns" so that deep Befores are reached
 			b := rapid.SampledFrom([]int{HReturns, HReturns, HReturns, HAbsent, HPanics, HExits}).Draw(rt, "beh")
@@ -79,8 +79,8 @@ func TestC05Random(t *testing.T) {
 				st.Class("random:faulty")
 				// a random plan that is also one of the enumerated ones (same depth range, no extra commands, one run) is
 				// already counted there
-				if d > EnvInt("VERIF_C05_DEPTH", 4) || c.Siblings || c.Below || c.Twice || c.HelpIn != nil {
-					st.NonTrivial(fmt.Sprint("r", d, c.Beh, c.Siblings, c.Below, c.Twice, c.HelpIn), func() interface{} { return c })
+				if d > EnvInt("VERIF_C05_DEPTH", 4) || c.Siblings || c.Below || c.Twice || c.HelpIn != nil || c.Policy != 0 {
+					st.NonTrivial(fmt.Sprint("r", d, c.Beh, c.Siblings, c.Below, c.Twice, c.HelpIn, c.Policy), func() interface{} { return c })
 				}
 			}
 			if d >= 6 {
